@@ -233,9 +233,28 @@ def extract():
         "PayloadKey": drop_info(lib, "PayloadKey", r"self\.key\.zeroize\(\)"),
         "ZeroedString": drop_info(cmds, "ZeroedString", r"self\.0\.zeroize\(\)"),
     }
+    v["staticState"] = static_state()
     v["panicSites"] = panic_sites()
     v["flows"] = flows()
     return v
+
+
+# ---- hidden state ------------------------------------------------------------------------------------------------
+
+def static_state():
+    """The Lean model treats every library and CLI function as a function of its arguments (plus the I/O scripts and the
+    random source).  That is only right if the code keeps no state between calls: this lists every `static` item,
+    `thread_local!` and `lazy_static!` of the non-test code, per crate.  The pinned value is the empty list."""
+    out = {"crypto": [], "cli": [], "ffi": []}
+    for rel in SRC_FILES:
+        crate = rel.split("/")[1]
+        src = strip_comments(strip_tests(read(rel)))
+        src = re.sub(r'"(?:[^"\\]|\\.)*"', '""', src)
+        for m in re.finditer(r"(?<!')\bstatic\s+(?:mut\s+)?([A-Za-z_]\w*)\s*:", src):
+            out[crate].append(f"{rel.split('/')[-1]}: static {m.group(1)}")
+        for m in re.finditer(r"\b(thread_local|lazy_static)!\s*[({]", src):
+            out[crate].append(f"{rel.split('/')[-1]}: {m.group(1)}!")
+    return out
 
 
 # ---- panic-site inventory ---------------------------------------------------------------------
@@ -245,8 +264,7 @@ UNTRUSTED = {
     "src/crypto/src/lib.rs": ["noise_decrypt", "chapoly_decrypt_noise", "chapoly_decrypt_ietf", "x25519",
                               "x25519_derive_public", "try_from", "to_public", "diffie_hellman", "new", "hkdf_sha256",
                               "sha256", "hmac_sha256", "hkdf_noise"],
-    "src/crypto/src/noise.rs": ["read_message", "decrypt_and_hash", "decrypt_with_ad", "mix_key", "mix_hash",
-                                "init_x", "get_pubkey", "set_nonce", "split", "new", "initialize_key"],
+    "src/crypto/src/noise.rs": None,        # every fn: helpers extracted from the reader (a shared DH step, say) are on the untrusted path too
     "src/cli/src/keyring.rs": None,
     "src/cli/src/main.rs": None,
 }
@@ -581,6 +599,10 @@ def render(v):
         esc = lambda t: t.replace("\\", "\\\\").replace('"', '\\"')
         items.append(f'  ⟨"{esc(s["file"])}", "{esc(s["fn"])}", "{esc(s["kind"])}", "{esc(s["text"])}"⟩')
     A(",\n".join(items) + "]")
+    A("")
+    A("/-- items that keep state between calls (`static`, `thread_local!`, `lazy_static!`) in the non-test code, per crate -/")
+    for crate in ("crypto", "cli", "ffi"):
+        A(f"def flow_pure_{crate} : List String := [" + ", ".join(json.dumps(t) for t in v["staticState"][crate]) + "]")
     A("")
     A("/-- control-flow skeletons: for each function the sequence of significant calls / guards / returns in source order -/")
     A("def flows : List (String × List String) := [")
